@@ -67,8 +67,7 @@ Fixpoint credit_payment (w : world) (from : N) (p : list (N * N * N)) : res worl
 Definition deposit_size (v : variant) (s : state) : N :=
   match v with
   | Base | Lock | Nft => nr_winning s
-  | Gt1 | Mig | Gt2 => nr_winning s + total_guaranteed s
-  | Lgt | Ngt => nr_winning s + N.of_nat (length (gt_users s))
+  | _ => nr_winning s + total_guaranteed s
   end.
 
 Definition send_fn_of (v : variant) : env -> world -> N -> N -> res world :=
